@@ -807,9 +807,13 @@ class TokenizerCore:
             tokens = len(self.tokens)
             self._scan(check_semicolon=True)
             self.tokens = self.tokens[:tokens]
-            text = self.sql[start : self._current].strip()
+            raw = self.sql[start : self._current]
+            text = raw.strip()
             if text:
+                # The nested scan moved _start to its last token: the string spans the whole command text
+                self._start = start + len(raw) - len(raw.lstrip())
                 self._add(TokenType.STRING, text)
+                self.tokens[-1].end = self._start + len(text) - 1
 
     def _scan_keywords(self) -> None:
         sql = self.sql
